@@ -92,6 +92,10 @@ package blocklist
 //@   assert at call os.CreateTemp#1: s.version == 0 || s.version > old(b.lastPersisted)
 //@   # the temporary carries the prefix the loader recognises and skips, and is created in the list's own directory
 //@   assert at call os.CreateTemp#1: arg1 == "local.tmp.*" && arg0 == b.cfg.BlockListDir
+//@   # ... which is created first if it does not exist yet ("after any ... API addition ... has completed, the persisted
+//@   # local list reloads to exactly the in-memory list" also holds for the first mutation of a fresh installation)
+//@   assert at call os.CreateTemp#1: calls("os.MkdirAll") == 1 && lastret("os.MkdirAll") == nil
+//@   assert at call os.MkdirAll#1: arg0 == b.cfg.BlockListDir
 //@   assert at call os.Rename#1: calls("(*os.File).Sync") == 1 && calls("(*os.File).Close") == 1 && calls("os.Rename") == 0 && arg0 == tmpName && arg1 == path
 //@   loop 1 invariant lastret("(*os.File).WriteString", 1) == nil && calls("github.com/semihalev/zlog/v2.Warn") == 0 && calls("(*middleware/blocklist.BlockList).persist$2") == 0 && calls("os.Rename") == 0 && calls("(*os.File).Sync") == 0 && calls("(*os.File).Close") == 0 && calls("os.CreateTemp") == 1
 //@   loop 2 invariant lastret("(*os.File).WriteString", 1) == nil && calls("github.com/semihalev/zlog/v2.Warn") == 0 && calls("(*middleware/blocklist.BlockList).persist$2") == 0 && calls("os.Rename") == 0 && calls("(*os.File).Sync") == 0 && calls("(*os.File).Close") == 0 && calls("os.CreateTemp") == 1
